@@ -1431,7 +1431,7 @@ func TestVerif_C08(t *testing.T) {
 	run := vfNewRun(t, "C08", "exploration")
 	run.SetRule("global rules: boundary e-mails (exact, case, sub-domain, look-alike prefix/suffix/dot, several '@', empty parts, spaces, wildcard literals, unicode, file members) + seeded grammar sample + boundary group lists + split-cookie sessions " +
 		"x 18 rule sets (exact, leading-dot, *., '*', several domains, e-mails file with case/space/comment/quoted variants, allowed groups, htpasswd) x {cookie, redis} x {cookie session after restart, bearer, htpasswd Basic, htpasswd form session} x {proxied path, auth-only, userinfo}; " +
-		"logins of failing identities; auth-only query constraints (3 kinds x absent/empty/match/no-match/lists/repeats/empty items/look-alikes) x 7 sessions x 2 instances; e-mails file rewritten between requests, including histories that end with a file without any address (empty, comments only; atomic rename and in place); logins of identities without any e-mail through --provider=adfs. " +
+		"logins of failing identities; auth-only query constraints (3 kinds x absent/empty/match/no-match/lists/repeats/empty items/look-alikes) x 7 sessions x 2 instances; e-mails file rewritten between requests, including histories that end with a file without any address (empty, comments only; atomic rename and in place); logins of identities without any e-mail through --provider=adfs; e-mails file behind a symlink whose target is swapped (ConfigMap layout). " +
 		"cell = (rule set, e-mail class, source, endpoint, store, history, expected)")
 	run.Assume("e-mail rule semantics as documented: exact '@domain' suffix, '.d'/'*.d' = domain part ends with '.d', '*' = all, case-insensitive; file = exact lower-cased address",
 		"an 'e-mail' without '@' under a sub-domain rule is not judged", "auth-only constraints are judged in the only-if direction against the most permissive documented reading",
